@@ -74,7 +74,7 @@ TEXT = {
                    "concurrent requests run the action kept is one of those sent with no later one among them (C16_conc_keeps_latest) and the instant of its timestamp does not depend on the order "
                    "(C16_conc_kept_timestamp_order_independent); C16_old_split_keeps_the_older_action is the kernel-checked interleaving of the code before the repair F25. Tied to the code by the "
                    "lock / call / field facts of the vikja state and handler and by the exploration of the real handlers (oracle older-action-kept on the module state after the block).",
-             note=_std_note + " Timestamps are compared as the instants they name (Ts.instant: seconds + nanos / 1e9 with the nanoseconds normalised, the seconds saturating at the ends of the int64 range), which is what modules/vikja/state.go does since the repairs F43 and F43b.", technique=_tech),
+             note=_std_note + " Timestamps are compared as the instants they name (Ts.instant: seconds + nanos / 1e9 with the nanoseconds normalised, exact over the integers); the arithmetic of modules/vikja/state.go (periods of four seconds, no overflow) is Ts.key, and key_order / key_in_range prove that comparing keys is comparing instants for all int64 seconds and int32 nanos (repairs F43, F43b, F43c).", technique=_tech),
  'C17': dict(level="C17_filter: for every list of flag strings F (all 1024 subsets and any unknown names), every history and every starting state, the run under F "
                    "reaches the same server state as the flag-free run and delivers exactly its deliveries minus the message classes F names (induction over the "
                    "history from the per-step lemma C17_step); C17_unknown_flag: names outside the ten remove nothing. Which sends each flag wraps in the source is "
